@@ -550,7 +550,7 @@ func init() {
 			{Name: "concurrent histories checked with porcupine", N: Fixed(400, 30000), Run: func(c *Ctx, i int, r *gen.R) { withProcs(c, func() { c17Concurrent(c, i, r) }) }},
 			{Name: "sequential histories vs a map", N: Fixed(200, 10000), Run: c17Sequential},
 			{Name: "fail-closed probes", N: Fixed(120, 3000), Run: c17FailClosed},
-			{Name: "first registry operations of a fresh process (6 scripts x 6 built-in names, one child process each)", Exhaustive: true, N: Fixed(36, 36), Run: c17Fresh},
+			{Name: "first registry operations of a fresh process (7 scripts x 6 built-in names, one child process each)", Exhaustive: true, N: Fixed(42, 42), Run: c17Fresh},
 		},
 	})
 }
@@ -561,7 +561,7 @@ func init() {
 
 func init() { auxModes["c17fresh"] = c17FreshChild }
 
-var c17FreshModes = []string{"overwrite-builtin-first", "register-new-first", "list-first", "named-unknown-first", "overwrite-then-list", "same-value-again-then-change"}
+var c17FreshModes = []string{"overwrite-builtin-first", "register-new-first", "list-first", "named-unknown-first", "overwrite-then-list", "same-value-again-then-change", "unknown-names-set-while-registrations-go-on"}
 
 // c17FreshChild performs the scripted first operations and prints "OK" or "BAD: <what>".
 func c17FreshChild(args []string) int {
@@ -631,6 +631,45 @@ func c17FreshChild(args []string) int {
 		decoration.RegisterDecorationName("again3-"+name, mine)
 		if decoration.Named("again3-"+name) != mine {
 			return bad("a name registered after several no-op registrations is not found")
+		}
+	case "unknown-names-set-while-registrations-go-on":
+		// two goroutines keep setting tables of their own to unknown names (the error path of the by-name API) while
+		// two others keep registering and overwriting names: every call returns.  This process is built without the
+		// race detector, so if all of them end up waiting for each other the Go runtime ends it ("all goroutines are
+		// asleep"), which the parent reports; a wrong answer is reported as BAD.
+		var wg sync.WaitGroup
+		var badMu sync.Mutex
+		badMsg := ""
+		setBad := func(m string) { badMu.Lock(); badMsg = m; badMu.Unlock() }
+		for g := 0; g < 2; g++ {
+			wg.Add(2)
+			go func(g int) {
+				defer wg.Done()
+				tt := texttable.New()
+				tt.AddHeaders("h")
+				tt.AddRowItems("x")
+				for k := 0; k < 20000; k++ {
+					if _, err := tt.SetDecorationNamed(fmt.Sprintf("never-registered-%d-%d", g, k)); err == nil {
+						setBad("SetDecorationNamed of a never registered name returned no error while registrations were going on")
+						return
+					}
+					if out, err := tt.Render(); err == nil || out != "" {
+						setBad("a table set to a never registered name rendered while registrations were going on")
+						return
+					}
+				}
+			}(g)
+			go func(g int) {
+				defer wg.Done()
+				for k := 0; k < 20000; k++ {
+					decoration.RegisterDecorationName(fmt.Sprintf("busy-%s-%d-%d", name, g, k%50), c17Value(fmt.Sprintf("c%d-%d", g, k)))
+					_ = decoration.RegisteredDecorationNames()
+				}
+			}(g)
+		}
+		wg.Wait()
+		if badMsg != "" {
+			return bad("%s", badMsg)
 		}
 	default:
 		return 3
